@@ -320,6 +320,34 @@ func c06Atoms(thorough bool, emit func(c06case)) {
 			}
 		}
 	}
+	// 6c. long operands: strings and binaries of more than 128 / 256 / 1024 bytes that agree on a long
+	// prefix and differ at the end (anything that compares a rendering cut to a fixed width, or a
+	// hash, instead of the value shows here)
+	for _, n := range []int{129, 257, 1025} {
+		base := strings.Repeat("x", n)
+		for _, typ := range []string{"S", "B"} {
+			mk := func(t string) val.V {
+				if typ == "B" {
+					return val.V{T: "B", B: []byte(t)}
+				}
+				return val.S(t)
+			}
+			stored := mk(base + "a")
+			item := val.Item{"a": stored, "z": val.S("other")}
+			for _, opnd := range []string{base + "a", base + "b", base, base + "ab", base[:n-1] + "y" + "a", "x"} {
+				v := map[string]val.V{":v": mk(opnd)}
+				tag := fmt.Sprintf("long(%d)|%s", n, typ)
+				emit(c06case{"begins_with|" + tag, rx.Fn("begins_with", rx.OpP("a"), rx.OpV(":v")), item, nil, v})
+				emit(c06case{"contains|" + tag, rx.Fn("contains", rx.OpP("a"), rx.OpV(":v")), item, nil, v})
+				for _, op := range cmpOps {
+					emit(c06case{"cmp(" + op + ")|" + tag, rx.Cmp(op, rx.OpP("a"), rx.OpV(":v")), item, nil, v})
+				}
+				emit(c06case{"in|" + tag, rx.In(rx.OpP("a"), rx.OpV(":v"), rx.OpV(":w")), item, nil, map[string]val.V{":v": mk(opnd), ":w": mk(base + "c")}})
+				emit(c06case{"between|" + tag, rx.Between(rx.OpP("a"), rx.OpV(":lo"), rx.OpV(":v")), item, nil, map[string]val.V{":lo": mk(base), ":v": mk(opnd)}})
+			}
+			emit(c06case{"size|long|" + typ, rx.Cmp("=", rx.OpSize("a"), rx.OpV(":n")), item, nil, map[string]val.V{":n": val.N(fmt.Sprint(n + 1))}})
+		}
+	}
 	// 7. functions on every path spelling x every typing
 	for _, ps := range paths {
 		for _, ta := range typesAbsent {
